@@ -243,3 +243,5 @@ def run(F, rep, tier):
             rep.check(good and all(ci not in sb.reachable_from([m]) for m in mism), "C14-R4", "kind-test-precedes-construction",
                       "the set is constructed (line %d) without a preceding element-kind comparison that can exit with the kind-mismatch error" % ct["l"], "%s:%d" % (sb.file, ct["l"]))
         rep.floor("C14-R4", "set construction sites in set()", len(comp), 1)
+    from rules.loopshape import c14_generator_source_per_environment
+    c14_generator_source_per_environment(F, rep)
